@@ -309,4 +309,41 @@ def checkLoop (_params lines : List String) : CaseResult := Id.run do
     r := { r with specs := s!"ebg_reentry_never_completes: after {rounds} activation(s)" :: r.specs }
   return { r with nontrivial := rounds ≥ 2 }
 
+/-- Family `c06term`: one alternative of the gateway is terminal (its catch event has no outgoing flow); params
+`k term seq`. The plain C06 predicate on the implementation's traces: the first delivered event decides — exactly one
+determination in the whole run, exactly the winner's task requested (none if the winner is the terminal alternative), once;
+nothing for later events; no delivery blocks; the instance completes. -/
+def checkTerm (params lines : List String) : CaseResult := Id.run do
+  let some (k, term) := (match params with
+    | k :: t :: _ => do let k ← k.toNat?; let t ← t.toNat?; pure (k, t)
+    | _ => none) | return { bad := ["c06term params"] }
+  let _ := k
+  let mut r : CaseResult := {}
+  let mut first : Option Nat := none
+  let mut determ := 0
+  let mut tasks : List String := []
+  let mut done := ""
+  for ln in lines do
+    match words ln with
+    | ["c06term", "deliver", _, e] => if first.isNone then first := e.toNat?
+    | ["c06term", "done", b] => done := b
+    | ["obs", "determ", _] => determ := determ + 1
+    | "obs" :: "task" :: t :: _ => tasks := tasks ++ [t]
+    | ["obs", "ret", "deliver", n, res] =>
+      if res != "returned" then
+        r := { r with specs := s!"ebg_late_event_blocks_delivery: the delivery of {n} did not return within its deadline" :: r.specs }
+    | "obs" :: "panic" :: rest => r := { r with specs := s!"ebg_panic: {" ".intercalate rest}" :: r.specs }
+    | ["obs", "noquiesce"] => r := { r with specs := "ebg_does_not_quiesce: the engine keeps running without input" :: r.specs }
+    | "harness-error" :: rest => r := { r with bad := ("harness-error " ++ " ".intercalate rest) :: r.bad }
+    | _ => pure ()
+  let some w := first | return { r with bad := "no delivery" :: r.bad }
+  let want := if w == term then [] else [s!"T{w}"]
+  if determ != 1 then
+    r := { r with specs := s!"ebg_terminal_not_one_winner: the event of alternative {w} was delivered first (terminal alternative: {term}); {determ} determination(s) were made" :: r.specs }
+  if tasks != want then
+    r := { r with specs := s!"ebg_terminal_branch: winner {w} (terminal alternative: {term}): branch tasks requested {tasks}, expected {want}" :: r.specs }
+  if done != "1" then
+    r := { r with specs := s!"ebg_instance_never_completes: winner {w} (terminal alternative: {term}), the instance does not complete" :: r.specs }
+  return { r with nontrivial := true }
+
 end Bpmn.Driver.C06
